@@ -20,7 +20,7 @@ TRUSTED_EXTRA = [
     "that the numerics after a fault never raise (LAPACK / NumPy errors on non-finite data) is NOT a theorem: fault enumeration on the real code",
     "C08_finite_kept is for runs without averaging and without a regulariser; with averaging the search checks finiteness only",
 ]
-KINDS = ["nan", "inf", "-inf", "huge", "raise"]
+KINDS = ["nan", "inf", "-inf", "huge", "raise", "raise-linalg", "raise-value", "raise-overflow"]
 ALLOW = ("bounds", "proj", "avg", "soft", "hard", "npt", "diag")
 
 
@@ -36,12 +36,13 @@ def check_faulted(t, d, kw, k, kind, ref_calls):
     """returns list of (signature, what)"""
     out = []
     ctxt = "%s|%s" % (kind, so.context_tags(t, d))
-    if kind == "raise":
+    if kind.startswith("raise"):
         exc = t.exception
         ncalls = len(t.calls)
-        if k != 0 and k <= ref_calls:
-            if exc is None or type(exc).__name__ != "Boom":
-                out.append(("C08:exception-not-propagated|" + ctxt, "fault 'raise' at call %d: solve returned/raised %r instead of propagating" % (k, exc)))
+        raised = getattr(t, "injected_exc", None)
+        if k != 0 and raised is not None:
+            if exc is None or exc is not raised:
+                out.append(("C08:exception-not-propagated|" + ctxt, "fault '%s' at call %d: solve returned/raised %r instead of propagating the objective's exception unchanged" % (kind, k, exc)))
             elif ncalls != k:
                 out.append(("C08:evaluations-after-exception|" + ctxt, "objfun raised at call %d but %d calls were made" % (k, ncalls)))
         return out
@@ -111,6 +112,7 @@ def _enumerate(ctx):
         kw, d = problems.rand_config(rng, prob, allow=ALLOW)
         kw["maxfun"] = min(kw["maxfun"], 40)
         d["maxfun"] = kw["maxfun"]
+        np.random.seed((ctx.seed * 7919 + 808 + i) % (2 ** 32))
         ref = tr.traced_solve(dfols, prob["f"], prob["x0"], alarm=10, **kw)
         stats["reference_runs"] += 1
         if ref.exception is not None:
@@ -122,15 +124,17 @@ def _enumerate(ctx):
             ks = sorted(set([0, 1] + pick + [nf]))
         for k in ks:
             for kind in KINDS:
-                if k == 0 and kind == "raise":
+                if k == 0 and kind.startswith("raise"):
                     continue
                 f = problems.faulty(prob["f"], k, kind)
+                np.random.seed((ctx.seed * 7919 + 808 + i) % (2 ** 32))
                 t = tr.traced_solve(dfols, f, prob["x0"], alarm=10, **kw)
+                t.injected_exc = f.state.get("exc")
                 stats["faulted_runs"] += 1
                 stats["by_kind"][kind] = stats["by_kind"].get(kind, 0) + 1
                 ctx.seen(("c08", i, k, kind))
                 if t.exception is not None and not isinstance(t.exception, core.Alarm):
-                    n = type(t.exception).__name__
+                    n = type(t.exception).__name__ + ("(injected)" if t.exception is t.injected_exc else "")
                     stats["exceptions"][n] = stats["exceptions"].get(n, 0) + 1
                 elif t.result is not None:
                     fl = so.exit_route(t)
@@ -177,6 +181,7 @@ def replay(payload):
     ref = tr.traced_solve(dfols, prob["f"], prob["x0"], alarm=10, **kw)
     f = problems.faulty(prob["f"], rp["k"], rp["kind"])
     t = tr.traced_solve(dfols, f, prob["x0"], alarm=10, **kw)
+    t.injected_exc = f.state.get("exc")
     res = check_faulted(t, d, kw, rp["k"], rp["kind"], len(ref.calls))
     print("replay:", res if res else "property holds on this input now")
     return 1 if res else 0
